@@ -90,3 +90,21 @@ Lemma radix_in_false lo hi r : ((lo <=? r) && (r <=? hi)) = false <-> ~ lo <= r 
 Proof.
   destruct (Z.leb_spec lo r); destruct (Z.leb_spec r hi); cbn; split; intros; try discriminate; try lia; reflexivity.
 Qed.
+
+(* split a conjunction of per-operation statements into its members (the members themselves —
+   `(_ <-> _) /\ (~ _ -> _)` — are left whole) *)
+Ltac split_ops :=
+  repeat match goal with
+         | |- (_ <-> _) /\ (~ _ -> _) => fail 1
+         | |- _ /\ _ => split
+         end.
+
+Lemma omap_bind_eti {A B C} (f : B -> C) (g : A -> B) (c : bool) k (v : A) :
+  omap f (do x <- (if c then Ret v else Panic k); Ret (g x)) = if c then Ret (f (g v)) else Panic k.
+Proof. destruct c; reflexivity. Qed.
+
+(* an operation that fails with exactly one kind and may otherwise run out of script (the
+   scripted RNG stream of C18) *)
+Lemma only_panic_cases {A} (m : outcome A) k0 (P : Prop) :
+  (forall k, m = Panic k <-> P /\ k = k0) -> ~ P -> (exists r, m = Ret r) \/ m = OutOfFuel.
+Proof. intros H N. apply outcome_cases. intros k E. apply H in E. tauto. Qed.
